@@ -312,7 +312,7 @@ impl SourceCursor {
                 _ => { break; }
             }
         }
-        return no * flag;
+        return no.wrapping_mul(flag);
     }
     pub fn get_int(&mut self, def: isize) -> isize {
         let mut no: isize = 0;
@@ -324,7 +324,7 @@ impl SourceCursor {
         }
         // Hex integer?
         if self.eq("0x") || self.eq_char('$') {
-            return flag * self.get_hex(def, true);
+            return flag.wrapping_mul(self.get_hex(def, true));
         }
         // Oct integer?
         if self.eq("0o") {
@@ -340,14 +340,14 @@ impl SourceCursor {
                 let ch = self.peek_n(0);
                 match ch {
                     '0'..='8' => {
-                        no = no * 8 + (ch as isize - '0' as isize);
+                        no = no.wrapping_mul(8).wrapping_add(ch as isize - '0' as isize);
                         self.next();
                         continue;
                     },
                     _ => { break; }
                 }
             }
-            return no * flag;
+            return no.wrapping_mul(flag);
         }
         // check numeric
         if !self.is_numeric() { return def; }
@@ -355,13 +355,13 @@ impl SourceCursor {
             let ch = self.peek_n(0);
             match ch {
                 '0'..='9' => {
-                    no = no * 10 + (ch as isize - '0' as isize);
+                    no = no.wrapping_mul(10).wrapping_add(ch as isize - '0' as isize); // a number too long for isize wraps (as in release builds) instead of panicking
                     self.next();
                 },
                 _ => break,
             }
         }
-        no * flag
+        no.wrapping_mul(flag)
     }
 }
 
